@@ -3,11 +3,11 @@ CONSTANTS NAcc = 1
           NSlot = 1
           MaxVal = 1
           MaxDiffs = {1, 2}
-          HistLimits = {0, 2, 3}
+          HistLimits = {0, 2}
           Policies = {"any"}
           Asyncs = {FALSE}
           IndexOns = {FALSE, TRUE}
-          MaxId = 4
+          MaxId = 3
 INVARIANTS TypeOK ViewIsRoot Aligned HistChain IndexExact ReadCorrect RefusalExact
 CONSTRAINT Bounded
 VIEW IStateView
